@@ -65,6 +65,9 @@ pub enum Event {
     PrintStatus(Print),
     /// Publish Will message
     PublishWill((String, Option<String>)),
+    /// Verification hook: reply with a read-only snapshot of the router state
+    #[cfg(feature = "verif-hooks")]
+    VerifSnapshot(flume::Sender<crate::verif::RouterSnapshot>),
 }
 
 /// Notification from router to connection
